@@ -247,7 +247,7 @@ fn cli_case(ctx: &Ctx, st: &mut Stats, text: &str, filter: Option<&str>, tag: &s
         },
         _ => return,
     };
-    let dir = ctx.scratch.join(format!("c14-{}", tag));
+    let dir = ctx.fresh_dir(&format!("c14-{}", tag));
     let _ = std::fs::create_dir_all(&dir);
     let (dp, pp) = (dir.join("bdd.dot"), dir.join("tree.dot"));
     let mut args = vec![format!("--evaluate={}", text), "-d".to_string(), dp.display().to_string(), "-p".to_string(), pp.display().to_string()];
@@ -310,7 +310,7 @@ pub fn run(ctx: &Ctx) -> (Stats, Spec) {
     let mut st = Stats::new();
     exhaustive_bdd(&mut st);
     st.exhaustive.push("diagram exports: all 256 functions over 3 variables x filters Any/True/False for BDDEnv<usize> (adjacent and sparse labels) and for BDDEnv<String> with symbols containing a quote, a backslash, a newline and non-ASCII letters".into());
-    let (bdd_iters, tree_iters, cli_iters) = ctx.tier.pick((1_500u64, 2_500u64, 40u64), (150_000u64, 120_000u64, 1_500u64));
+    let (bdd_iters, tree_iters, cli_iters) = ctx.tier.pick((8_000u64, 15_000u64, 100u64), (150_000u64, 120_000u64, 1_500u64));
     let parts = util::par_jobs(16, |j| {
         let mut s = random_bdd_job(ctx, j, bdd_iters);
         s.merge(tree_job(ctx, j, tree_iters));
